@@ -23,6 +23,16 @@ pub struct UDPSender {
 
 impl UDPSender {
   pub fn new(sender_port: u16) -> io::Result<Self> {
+    #[cfg(rustdds_verif)]
+    {
+      if crate::verif::hooks::sim_active() {
+        // simulated network: one unused loopback socket, no multicast sockets
+        return Ok(Self {
+          unicast_socket: mio_08::net::UdpSocket::bind("127.0.0.1:0".parse().unwrap())?,
+          multicast_sockets: Vec::new(),
+        });
+      }
+    }
     let unicast_socket = {
       let saddr: SocketAddr = SocketAddr::new("0.0.0.0".parse().unwrap(), sender_port);
       mio_08::net::UdpSocket::bind(saddr)?
@@ -105,6 +115,12 @@ impl UDPSender {
   }
 
   pub fn send_to_locator(&self, buffer: &[u8], locator: &Locator) {
+    #[cfg(rustdds_verif)]
+    {
+      if crate::verif::hooks::udp_send(buffer, locator) {
+        return; // captured by the simulated network
+      }
+    }
     if buffer.len() > 1500 {
       warn!("send_to_locator: Message size = {}", buffer.len());
     }
